@@ -240,3 +240,22 @@ PROPS["C06"] = {
     "counter_floors": {"quick": {"cases_alternative_start": 5000, "cases_with_assumptions": 5000, "join_only_fixpoints_compared": 300, "extrapolation_calls_checked": 3000}},
     "assumptions": ["the oracle is a naive chaotic iteration over (block, state) pairs written in the harness"],
 }
+
+ENGINES[3]["serves_properties"] = ["C01", "C02", "C03", "C04", "C05", "C11"]
+ENGINES[3]["path"] += ", e_bwd.cc"
+PROPS["C11"] = {
+    "technique": "reference-model runtime monitor: executions of the CrabIR interpreter that go on to violate an assertion (or reach the exit in a given final state) are collected, started from the entry and from arbitrary blocks in arbitrary states; every (block, entry state) on them must be inside the necessary precondition reported by the real backward analysis",
+    "level_text": "generated CFGs with exit blocks and synthesised assertions are analysed by necessary_preconditions_fixpoint_iterator in error mode (with and without forward invariants from the real forward analysis) and in good mode (final box around a concrete exit state), for every domain implementing backward operations; 40 executions per program, from the entry and from arbitrary blocks/states. Held on the executions run.",
+    "level_note": "with forward invariants only executions from the initial states are used; arrays in backward mode are left to the array engines",
+    "rule": "a case is (program, domain, parameters, mode); non-trivial = at least one execution was relevant (violated an assertion / reached a good final state) so that preconditions were actually challenged, or the combined analyzer was run; distinct = hash of program + configuration",
+    "jobs": {
+        "quick": [{"name": "bwd", "bin": "crabv", "engine": "bwd", "cases": 5000, "params": {"dom": "backward"}}],
+        "thorough": [{"name": "bwd", "bin": "crabv", "engine": "bwd", "cases": 120000, "params": {"dom": "backward"}}],
+    },
+    "floor": {"quick": 1500, "thorough": 30000},
+    "counter_floors": {"quick": {"relevant_executions": 15000, "precondition_membership_checks": 40000}},
+    "assumptions": _FWD_ASSUME,
+}
+PROPS["C02"]["jobs"]["quick"].append({"name": "bwd", "bin": "crabv", "engine": "bwd", "cases": 2500, "params": {"dom": "backward"}})
+PROPS["C02"]["jobs"]["thorough"].append({"name": "bwd", "bin": "crabv", "engine": "bwd", "cases": 60000, "params": {"dom": "backward"}})
+PROPS["C02"]["level_text"] += " The forward+backward analyzer (max_refine_iterations 0/1/5, use_refined_invariants on/off) is run with the same checker and judged the same way."
